@@ -101,6 +101,9 @@ class CallMixin:
             return self.call_spec(st, fv, args, kwargs)
         if isinstance(fv, Builtin):
             return self.call_builtin(st, fv, args, kwargs, node)
+        if isinstance(fv, Opaque) and fv.tag.startswith("lemma:"):
+            key = "lemmas:" + fv.tag[6:]
+            return self.apply_contract(st, self.contracts[key], args, kwargs, key)
         if isinstance(fv, Opaque):
             key = "opaque:" + fv.tag
             c = self.contracts.get(key)
@@ -166,6 +169,9 @@ class CallMixin:
             raise OutsideSubset("inlining depth exceeded (unbounded recursion without contract?)")
         env = {"__parent__": f.env}
         self.bind_params(st, f, args, kwargs, env)
+        if contract is not None and contract is getattr(self, "body_contract_obj", None):
+            for gk, gv in (getattr(self, "ghost_env", None) or {}).items():
+                env.setdefault(gk, gv)
         fr = Frame(env, f.module, f.qualname)
         fr.contract = contract
         fr.cls = f.cls
@@ -309,7 +315,39 @@ class CallMixin:
             if st.bound:
                 ax = z3.ForAll(list(st.bound), ax, patterns=[app] if all(self._mentions(app, b) for b in st.bound) else [])
             st.axioms.append(ax)
+        self.auto_lemmas(st, sf, ps, args, app)
         return res
+
+    def auto_lemmas(self, st, sf, ps, args, app):
+        """Facts proved once by induction (lemma contracts with option auto_for=<spec function>) are attached to every
+        application of that spec function."""
+        for lc in getattr(self, "auto_lemma_index", {}).get(sf.name, ()):
+            if self.current_target == lc.target or getattr(self, "_in_auto", False):
+                continue
+            key = ("auto", lc.target, app.sexpr())
+            done = st.ghost.setdefault("__unfolded", set())
+            if key in done:
+                continue
+            done.add(key)
+            env = {}
+            for (p, ann), a in zip(lc.params, args):
+                env[p] = a
+            fr = Frame(env, None, lc.target)
+            fr.spec_module = None
+            st.frames.append(fr)
+            self._in_auto = True
+            try:
+                pre = [self.truthy(st, self.ev_spec(st, r)) for r in lc.requires]
+                for e in lc.ensures:
+                    g = self.truthy(st, self.ev_spec(st, e))
+                    ax = z3.Implies(z3.And(pre), g) if pre else g
+                    if st.bound:
+                        ax = z3.ForAll(list(st.bound), ax)
+                    st.axioms.append(ax)
+                self.called.add(lc.target)
+            finally:
+                self._in_auto = False
+                st.frames.pop()
 
     def _mentions(self, e, v):
         if e.eq(v):
@@ -320,7 +358,8 @@ class CallMixin:
         env = {}
         for (p, t), v in zip(ps, vals):
             if isinstance(v, Z) and t.kind == "ref" and v.t.kind == "ref":
-                v = Z(t, v.e)       # inside the spec function the static class is the declared one
+                if not (v.t.cls and t.cls and self.model_is_sub(v.t.cls, t.cls)):
+                    v = Z(t, v.e)   # keep a narrower static class of the argument (prunes isinstance chains)
             elif t.is_smt() and not isinstance(v, Z):
                 v = self.to_z(st, v, t)
             elif t.kind == "arr" and not isinstance(v, Arr):
@@ -330,9 +369,12 @@ class CallMixin:
         fr.spec_module = sf.module
         st.frames.append(fr)
         st.spec += 1
+        saved = getattr(self, "_spec_field_fallback", False)
+        self._spec_field_fallback = True
         try:
             return self.eval_spec_body(st, sf.node.body)
         finally:
+            self._spec_field_fallback = saved
             st.spec -= 1
             st.frames.pop()
 
@@ -458,6 +500,10 @@ class CallMixin:
             k = self.to_z(st, self.ev_spec(st, A[1]), T("str")).e
             v = self.to_dyn(st, self.ev_spec(st, A[2]))
             return Z(T("dyn"), smt.dyn_ctor("DDict")(z3.Store(smt.dyn_acc("DDict", 0, d), k, v)))
+        if name == "d_absent":
+            return Z(T("dyn"), smt.dyn_ctor("DAbsent"))
+        if name == "size":
+            return self.bi_len(st, [self.ev_spec(st, A[0])], {})
         if name == "bitlen":
             return zint(self.bitlen(st, self.as_int(st, self.ev_spec(st, A[0]))))
         raise ContractError(f"spec form {name}")
